@@ -8,7 +8,7 @@
 From Coq Require Import String.
 From Coq Require Import List Arith ZArith.
 Import ListNotations.
-From YP Require Import Base.Str Term.Term Term.Show Engine.Db Engine.DbCursor Engine.DbCursorThms Engine.DbClear Engine.DbSpec Engine.DbTotal Engine.DbFacts Engine.DbProg Engine.DbProgThms Engine.RunDbProg Engine.DbProgInv Engine.DbProgSim Engine.DbOpen.
+From YP Require Import Base.Str Term.Term Term.Show Engine.Db Engine.DbCursor Engine.DbCursorThms Engine.DbClear Engine.DbSpec Engine.DbTotal Engine.DbFacts Engine.DbProg Engine.DbProgThms Engine.RunDbProg Engine.DbProgInv Engine.DbProgSim Engine.DbOpen Engine.DbProgMeta Engine.DbProgMetaThms Engine.RunDbProgMeta.
 
 (* For every history of asserta / assertz / assert_fact / query (all answers, or j answers then
    close) / retract (j answers requested, then closed; j larger than the number of matches = run to
@@ -249,3 +249,34 @@ Example C07_clear_while_suspended :
                     OEnd; OEnd; OAns 2 [TInt 3%Z]; OEnd] /\
     map fid (sdb s' (p, 1)) = [3; 4].
 Proof. eexists. eexists. split; [vm_compute; reflexivity|]. repeat split. Qed.
+
+(* ---- round 6: compiled code that reaches the database THROUGH META-CALLS (Engine/DbProgMeta.v) ----
+   msolve = DbProg.solve in which a goal name(args) is YP.query literally: the facts of name/arity, then the clauses of
+   the program or the registered builtin of that name: call/N (goal dereferenced, extra arguments appended, the target
+   queried again: a dynamic predicate, a rule, assertz/asserta/retract/retractall, a further meta-call), once/1 (first
+   answer, then the call's generators are closed), findall/3 (its goal run to exhaustion in a run of its own, one copy of
+   the template per answer, then the bag is unified), =, \=.  For every program, body, store, state and fuel: the updates
+   of the run - however they were reached - are atomic list operations each applied to the list current at that moment,
+   the final database is their fold in execution order, identities stay unique. *)
+Theorem C07_meta_updates_are_list_operations : forall uf prog n gs s g g' a tr fl,
+  ids_ok (gdb g) (gid g) -> msolve uf prog n gs s g = Some (g', a, tr, fl) ->
+  valid_trace (gdb g) (gid g) tr /\ (forall k, gdb g' k = apply_outs tr (gdb g) k) /\ ids_ok (gdb g') (gid g').
+Proof. exact mprog_no_lost_update. Qed.
+Print Assumptions C07_meta_updates_are_list_operations.
+
+(* non-vacuity:  init :- assertz(p(a)), assertz(p(b)).      u :- p(X), call(assertz, p(X)), fail.   u.
+                 v(L) :- G = p(X), findall(X, call(G), L).  t(L) :- findall(X, retract(p(X)), L).
+   queries init, u, v(L), t(L), t(L): u appends a copy of each of the two facts it started on (the goal p(X) stays
+   suspended around call/2 and does not see them); v collects [a,b,a,b] through a goal held in a variable; the first t
+   removes all four in list order and returns them, the second finds nothing ([]); p/1 is empty at the end; 4 Answers *)
+Example C07_meta_history :
+  let p x := TFun (d "p") [x] in let a := TAtom (d "a") in let b := TAtom (d "b") in
+  show (run_prog_meta 100 50 1000
+    [mkcl (d "init") 0 [] [GAssert false (p a); GAssert false (p b)];
+     mkcl (d "t") 2 [TVar 0] [GCall (d "findall") [TVar 1; TFun (d "retract") [p (TVar 1)]; TVar 0]];
+     mkcl (d "u") 1 [] [GCall (d "p") [TVar 0]; GCall (d "call") [TAtom (d "assertz"); p (TVar 0)]; GFail];
+     mkcl (d "u") 0 [] [];
+     mkcl (d "v") 3 [TVar 0] [GUnify (TVar 2) (p (TVar 1)); GCall (d "findall") [TVar 1; TFun (d "call") [TVar 2]; TVar 0]]]
+    [(d "init", [], 0); (d "u", [], 0); (d "v", [TVar 0], 1); (d "t", [TVar 0], 1); (d "t", [TVar 0], 1)] [(d "p", 1)])
+  = "((({answers} (())) ({answers} (())) ({answers} (((4 {.} ((0 {a}) (4 {.} ((0 {b}) (4 {.} ((0 {a}) (4 {.} ((0 {b}) (0 {[]})))))))))))) ({answers} (((4 {.} ((0 {a}) (4 {.} ((0 {b}) (4 {.} ((0 {a}) (4 {.} ((0 {b}) (0 {[]})))))))))))) ({answers} (((0 {[]}))))) (()) 4)"%string.
+Proof. vm_compute. reflexivity. Qed.
